@@ -152,6 +152,7 @@ def gen_case(rng: random.Random) -> tuple[list[dict], int, dict | None, dict]:
         stream = stream + [dict(rng.choice(stream)) for _ in range(rng.randint(1, 3))]
     b = rng.choice([1, 2, 3, 5, 7, 1000])
     flt = None
+    meta_crossed = [0]
     r = rng.random()
     if r < 0.5:
         flt = {}
@@ -166,9 +167,18 @@ def gen_case(rng: random.Random) -> tuple[list[dict], int, dict | None, dict]:
                 flt[n] = []               # empty for a name
         if rng.random() < 0.2:
             flt["absent-name"] = ["nope"]
+        if rng.random() < 0.35 and len(by) >= 2:
+            # crossed / stale entries: ids that exist, but under another workflow name - the
+            # pair (name, id) is not in the store, so it must select nothing
+            for n in list(flt):
+                others = [j for m, ids in by.items() if m != n for j in ids]
+                if others and rng.random() < 0.6:
+                    flt[n] = sorted(set(flt[n]) | set(rng.sample(others, rng.randint(1, min(2, len(others))))))
+                    meta_crossed[0] += 1
         if not any(flt.values()):
             flt = None if rng.random() < 0.5 else flt
-    return stream, b, flt, {"order": order, "traces": len(st["traces"]), "names": len(names)}
+    return stream, b, flt, {"order": order, "traces": len(st["traces"]), "names": len(names),
+                            "crossed": meta_crossed[0]}
 
 
 def run_chunk(case: dict) -> dict:
@@ -193,6 +203,8 @@ def run_chunk(case: dict) -> dict:
         bump(v.split(":")[0])
         bump("order:" + meta["order"])
         bump("with_filter" if eff else "without_filter")
+        if eff and meta.get("crossed"):
+            bump("filters_with_ids_listed_under_another_name")
         bump("traces_streamed", info.get("traces", 0))
         bump("spans_streamed", info.get("spans", 0))
         if info.get("spans", 0) > b:
@@ -242,7 +254,8 @@ def main(tier: str, seed: int) -> int:
         rule="seeded random stores: 1-4 workflow names, 1-12 traces of 1-12 spans, ingested "
              "trace-wise / interleaved / reversed / shuffled (plus re-delivered duplicate "
              "spans), batch sizes {1,2,3,5,7,1000}; streamed without filter and with "
-             "name->trace-id filters (subset per name, empty for a name, absent name); the "
+             "name->trace-id filters (subset per name, empty for a name, absent name, ids listed "
+             "under a name they do not belong to); the "
              "nested generators are consumed the way the sequencer does; every third case also "
              "pipes a store that still holds broken traces (dangling parents, mixed names) "
              "through the real sequence_otel_job_id_streams. distinct non-trivial "
